@@ -141,6 +141,69 @@ def job_factory(res, n, gap_sign, use_csr, wall, coll):
         prove(res, '%s: result has %d samples and equals the sum of the selected contributions cell by cell (beam pipe radius |gap|/2), all parameters' % (desc, n), s2.pc,
               z3.Or(z3.BoolVal(not ok), *[c for a, b in zip(z, want) for c in (a[0] != b[0], a[1] != b[1])]), key='factory-sum', cex_fn=cex)
 
+def job_parallel_plates_shape(res, n, g):
+    """ParallelPlatesCSR::__calcImpedance from IR, the four Airy functions of boost::math as arbitrary finite values (one fresh symbol per call): the *shape* of the result -
+    n samples, sample 0 and every sample above n/2 exactly zero - for even and odd n.  (This is what the factory runs assume of the stubbed model; the values themselves,
+    i.e. the free-space and cutoff limits, are not decided.)"""
+    bld = imp_build(); mod = load_module(bld, IMP_MODS)
+    snap, R, pre = take_snapshot(bld, 'n%d' % n, [n])
+    ex = Exec(mod, snap, RealDom()); cnt = [0]
+    def airy(ex_, st, fr, a, ins):
+        cnt[0] += 1; v = z3.Real('airy%d' % cnt[0]); st.pc += [v >= -1000000, v <= 1000000]; st.ranges['airy%d' % cnt[0]] = (Fraction(-1000000), Fraction(1000000)); return v      # finite and far from the overflow tests of the narrowing cast
+    for pfx in ('_ZN5boost4math13airy_ai_prime', '_ZN5boost4math13airy_bi_prime', '_ZN5boost4math7airy_ai', '_ZN5boost4math7airy_bi',
+                '_ZN5boost4math6detail17airy_ai_prime_imp', '_ZN5boost4math6detail17airy_bi_prime_imp', '_ZN5boost4math6detail11airy_ai_imp', '_ZN5boost4math6detail11airy_bi_imp'): ex.ext_prefix.append((pfx, airy))
+    sts = run_paths(ex, State(), 'e_parplates', [n, Fraction(f32(2.7e6)), Fraction(f32(1e12)), Fraction(g)]); account(res, ex, mod, sts)
+    for s1 in sts:
+        v = s1.retval; size = ex.run1(s1, 'e_vsize', [v]).retval
+        res.obs.append(Ob('ParallelPlatesCSR n=%d gap %g: returns exactly %d samples (got %s)' % (n, g, n, size), 'holds' if size == n else 'violated', key='parallel-plates-length'))
+        if size != n: continue
+        z = read_z(ex, s1, ex.run1(s1, 'e_vdata', [v]).retval, n)
+        zero = [0] + list(range(n // 2 + 1, n))
+        prove(res, 'ParallelPlatesCSR n=%d gap %g: sample 0 and samples %d..%d (negative-frequency half) are exactly zero whatever the Airy functions return' % (n, g, n // 2 + 1, n - 1), s1.pc,
+              z3.Or(*[c != 0 for k in zero for c in z[k]]), key='parallel-plates-upper-zero', cex_fn=lambda m: {'replay': 'pp-shape', 'n': n, 'g': g})
+        witness(res, 'ParallelPlatesCSR n=%d: sample 1 depends on the Airy values (%d calls)' % (n, cnt[0]), s1.pc, z3.BoolVal(cnt[0] > 0 and not z3.is_rational_value(z3.simplify(z[1][0]))))
+
+READ_DATA = '_ZN4vfps9Impedance8readDataENSt7__cxx1112basic_stringIcSt11char_traitsIcESaIcEEE'
+def job_factory_file(res, n, L, gap_sign, wall):
+    """makeImpedance with an impedance table (file of L samples, each an arbitrary complex number) alone or on top of analytic contributions:
+    the returned object holds exactly n samples and says so (nFreqs() == size() == n: everything that later indexes it up to nFreqs() stays inside), cell i == analytic_i + table_i (0 beyond the table)"""
+    bld = imp_build(); mod = load_module(bld, IMP_MODS)
+    snap, R, pre = take_snapshot(bld, 'n%d' % n, [n])
+    T = [(z3.Real('tab_re%d' % i), z3.Real('tab_im%d' % i)) for i in range(L)]
+    def read_data(ex, st, fr, a, ins):
+        buf = ex.malloc(st, max(8 * L, 1)) if L else 0
+        for i, (re_, im_) in enumerate(T): st.sym[buf + 8 * i] = (4, 'f', re_); st.sym[buf + 8 * i + 4] = (4, 'f', im_)
+        for k, v in enumerate((buf, buf + 8 * L, buf + 8 * L)): ex.store(st, a[0] + 8 * k, IntTy(64), v)
+        return None
+    pp = []
+    ex = Exec(mod, snap, RealDom(), {PP_CALC: pp_stub(n, pp), READ_DATA: read_data}); st = State()
+    fmax, Rb, frev, g, s, xi = [z3.Real(x) for x in ('fmax', 'R_bend', 'frev', 'gapabs', 's', 'xi')]
+    st.pc += [fmax > 1e6, Rb > 0, frev > 1000, g > 0]
+    gap = g if gap_sign > 0 else (-g if gap_sign < 0 else Fraction(0))
+    if wall: st.pc += [s > 0, xi >= -1]; sv, xv = s, xi
+    else: sv, xv = Fraction(0), Fraction(0)
+    sts = run_paths(ex, st, 'e_make', [n, fmax, Rb, frev, gap, 0, sv, xv, Fraction(0), R['fname']]); account(res, ex, mod, sts)
+    desc = 'factory n=%d with an impedance table of %d samples, gap%s0, wall=%s' % (n, L, '>' if gap_sign > 0 else '<' if gap_sign < 0 else '=', wall)
+    for sx in sts:
+        obj = sx.retval
+        if obj == 0:
+            res.obs.append(Ob('%s: a table is given but the factory returned nullptr' % desc, 'violated', key='factory-file', cex={'replay': 'make-file', 'n': n, 'L': L, 'gap_sign': gap_sign, 'wall': wall})); continue
+        size = ex.run1(sx, 'e_isize', [obj]).retval; nf = ex.run1(sx, 'e_infreqs', [obj]).retval
+        okn = (size == n and nf == n)
+        res.obs.append(Ob('%s: the result holds %d samples and reports %d (size() == nFreqs() == n; got size %s, nFreqs %s) - readers that index up to nFreqs() stay inside' % (desc, n, n, size, nf), 'holds' if okn else 'violated', key='factory-file-size',
+                          cex=None if okn else {'replay': 'make-file', 'n': n, 'L': L, 'gap_sign': gap_sign, 'wall': wall}))
+        if not okn: continue
+        z = read_z(ex, sx, ex.run1(sx, 'e_idata', [obj]).retval, n)
+        want = [(z3.RealVal(0), z3.RealVal(0))] * n; s2 = sx
+        if wall and gap_sign != 0:
+            s2 = ex.run1(s2, 'e_reswall', [n, frev, fmax, C_LIGHT / frev, s, xi, g / 2]); rw = read_z(ex, s2, ex.run1(s2, 'e_vdata', [s2.retval]).retval, n)
+            want = [(a[0] + b[0], a[1] + b[1]) for a, b in zip(want, rw)]
+        want = [(w[0] + (T[i][0] if i < L else 0), w[1] + (T[i][1] if i < L else 0)) for i, w in enumerate(want)]
+        prove(res, '%s: cell i == selected analytic contribution + table sample i (nothing beyond the table), all table values and parameters' % desc, s2.pc,
+              z3.Or(*[c for a, b in zip(z, want) for c in (a[0] != b[0], a[1] != b[1])]), key='factory-file',
+              cex_fn=lambda m: {'replay': 'make-file', 'n': n, 'L': L, 'gap_sign': gap_sign, 'wall': wall})
+    witness(res, '%s: result depends on the table' % desc, sts[0].pc, z3.BoolVal(L == 0 or any(o.verdict == 'holds' for o in res.obs)))
+
 def job_add(res, n):
     bld = imp_build(); mod = load_module(bld, IMP_MODS)
     snap, R, pre = take_snapshot(bld, 'n%d' % n, [n])
@@ -155,6 +218,24 @@ def job_add(res, n):
 
 def replayer(bld):
     def rp(path, c):
+        if c.get('replay') == 'pp-shape':
+            o = native_run(bld, {'n': c['n'], 'fmax': 1e12, 'R_bend': 5.559, 'frev': 2.7e6, 'gap': c['g'], 'use_csr': 1, 's': 0.0, 'xi': 0.0, 'coll': 0.0}, 'c16')
+            n = c['n']; mk = o.get('make') or []
+            nz = [k for k in [0] + list(range(n // 2 + 1, n)) if 2 * k + 1 < len(mk) and (mk[2 * k] != 0 or mk[2 * k + 1] != 0)]
+            return (bool(nz) or len(mk) != 2 * n, 'native parallel-plates impedance (through the factory): non-zero samples in the negative-frequency half at %s, %d values' % (nz, len(mk) // 2))
+        if c.get('replay') == 'make-file':
+            n = c['n']; L = c['L']; tab = [float(v) for i in range(L) for v in (0.5 + i, -0.25 * i)]
+            spec = {'n': n, 'fmax': 1e12, 'R_bend': 5.559, 'frev': 2.7e6, 'gap': 0.032 * (1 if c['gap_sign'] > 0 else -1 if c['gap_sign'] < 0 else 0), 'use_csr': 0, 's': 3.5e7 if c['wall'] else 0.0, 'xi': 0.0, 'coll': 0.0}
+            if L: spec['table'] = tab
+            o = native_run(bld, spec, 'c16')
+            if not o.get('make'): return (L > 0, 'native factory returned nullptr')
+            sz = o.get('sizes', [0, 0])
+            if int(sz[0]) != n or int(sz[1]) != n: return (True, 'native factory result: size() = %d, nFreqs() = %d, requested %d' % (sz[0], sz[1], n))
+            want = [0.0] * (2 * n)
+            if c['wall'] and c['gap_sign']: want = [a + b for a, b in zip(want, o['rw'])]
+            for i in range(min(L, n)): want[2 * i] += tab[2 * i]; want[2 * i + 1] += tab[2 * i + 1]
+            dev = max(abs(a - b) for a, b in zip(o['make'], want)); sc = max(abs(v) for v in want) + 1e-30
+            return (dev > 1e-4 * sc, 'native factory output differs from analytic + table by %.3g (scale %.3g)' % (dev, sc))
         if c.get('replay') != 'make': return (True, 'formula identity of the real model code: %s' % str(c)[:200])
         n = c['n']; P = c.get('params', {}); g = abs(float(P.get('gapabs', 0.032))) or 0.032
         spec = {'n': n, 'fmax': float(P.get('fmax', 1e12)), 'R_bend': float(P.get('R_bend', 5.559)), 'frev': float(P.get('frev', 2.7e6)), 'gap': g * (1 if c['gap_sign'] > 0 else -1 if c['gap_sign'] < 0 else 0),
@@ -180,7 +261,9 @@ def main(tier):
     jobs = [(job_models, (n,)) for n in ns] + [(job_add, (n,)) for n in (3, 8)]
     combos = [(gs, csr, w, c) for gs in (1, -1, 0) for csr in (True, False) for w in (True, False) for c in (True, False)]
     jobs += [(job_factory, (n, gs, csr, w, c)) for n in ((8,) if tier == 'quick' else (8, 9, 3)) for (gs, csr, w, c) in combos]
-    chk.bounds = {'sample counts': list(ns), 'factory': 'every combination of gap <,=,> 0, use_csr, wall (s>0, xi>=-1), collimator (0<r<|gap|/2), no impedance file; all physical parameters symbolic positive reals'}
+    jobs += [(job_parallel_plates_shape, (n, 0.032)) for n in ((8, 9, 5) if tier == 'quick' else (8, 9, 5, 7, 16, 17, 3))]
+    jobs += [(job_factory_file, (n, L, gs, w)) for n, L in ((8, 3), (8, 8), (5, 9), (8, 0)) for gs, w in ((0, False), (-1, True), (-1, False))]      # impedance table alone / on top of analytic contributions; shorter, equal, longer, empty
+    chk.bounds = {'sample counts': list(ns), 'factory': 'every combination of gap <,=,> 0, use_csr, wall (s>0, xi>=-1), collimator (0<r<|gap|/2) without impedance file; with a table of 0/3/8/9 arbitrary samples alone and on top of the wall model; all physical parameters symbolic positive reals'}
     chk.assumptions = ['powf/sqrt/log are uninterpreted functions with pow,sqrt >= 0 and log x > 0 for x > 1 (same symbol in code and specification): the cube-root/square-root laws are statements about the exponent/function used',
                        'ParallelPlatesCSR::__calcImpedance (Airy-function series in boost::math behind exceptions) is replaced by an arbitrary vector with zero upper half inside the factory runs; its limits (free space for wide gaps, suppression below cutoff) are NOT decided',
                        'causality / one-sidedness of the impulse response and impedances read from files (C17) are not decided', 'n = 1 (division by n-1 = 0) is outside the domain', 'floats as reals']
